@@ -11,6 +11,7 @@ import (
 	"os"
 	"path/filepath"
 	"sort"
+	"strings"
 	"sync"
 	"time"
 
@@ -144,7 +145,8 @@ func (in *Inst) AddMonitor(id string, method string, req map[string]interface{})
 			return p, nil
 		}
 		m.onUpdate(method, params)
-		return nil, nil
+		// rpc2 treats a null result as an error and shuts the connection down
+		return []interface{}{}, nil
 	}
 	c.Start()
 	wire := map[string]interface{}{}
@@ -387,6 +389,11 @@ func (in *Inst) RunTxn(rec *Recorder, aops []abs.AOp) (map[string]interface{}, e
 		if i < len(aops) {
 			a = aops[i]
 		}
+		if i < len(aops) && a.Op == "insert" && a.NoUUID && r != nil && r.Error == "" && strings.HasPrefix(a.UUID, "g") {
+			// replaying a recorded trace: keep the recorded token for the
+			// uuid the server chose this time
+			in.Ctx.Tok.Bind(a.UUID, r.UUID.GoUUID)
+		}
 		ar, err := in.Ctx.ResultToAbs(a, r)
 		if err != nil {
 			return nil, err
@@ -441,7 +448,7 @@ func (in *Inst) LoadFrom(rec *Recorder, from int, dump map[string]interface{}) e
 			row := map[string]interface{}{}
 			for c, v := range tm[u].(map[string]interface{}) {
 				// the default value is what an omitted column gets anyway
-				if fmt.Sprint(v) == fmt.Sprint(abs.DefaultAbs(in.Ctx.Abs.Tables[t].Cols[c])) {
+				if abs.IsDefaultAbs(in.Ctx.Abs.Tables[t].Cols[c], v) {
 					continue
 				}
 				row[c] = v
